@@ -12,7 +12,7 @@ from harness.c03 import ALIAS_MAPS, ALL_MAPS, EXTRA_MAPS, MAPS, MORE_MAPS, body_
 
 PROPERTY = "C12"
 BOUNDS = {
-    "quick": {"path": "'/' + <= 5 solver characters (printable ASCII without ? #; '%' stands for a percent sign sent as %25), incl. leading '//host' forms", "maps": "10 redirecting maps incl. defaults (equal and wider), alias rules (same shape and with extra defaults) and per-method rules",
+    "quick": {"path": "'/' + <= 5 solver characters (printable ASCII without ? #; '%' stands for a percent sign sent as %25), incl. leading '//host' forms", "maps": "11 redirecting maps incl. defaults (equal and wider), alias rules (same shape and with extra defaults) and per-method rules",
               "script roots": ["/", "/app", "/app/"], "schemes": ["http", "https"]},
     "thorough": {"path": "<= 7 characters"},
 }
@@ -26,7 +26,7 @@ def obligations(tier, seed):
     quick = tier == "quick"
     nm = len(MAPS)
     na = nm + len(EXTRA_MAPS) + len(MORE_MAPS)
-    for mi in (0, 2, 6, 8, nm, nm + 1, nm + 2, nm + 3, na, na + 1):
+    for mi in (0, 2, 6, 8, nm, nm + 1, nm + 2, nm + 3, na, na + 1, na + 2):
         for script in ("/", "/app", "/app/"):
             for scheme in (("http", "https") if script == "/" else ("https",)):
                 for strict, merge in [(True, True), (True, False), (False, True)]:
